@@ -143,7 +143,7 @@ def check_order(cfg, acc):
         sts = zoo.states(case.d, cfg["system"]["seed"], 2)
     for si, (q, p) in enumerate(sts[:cfg.get("n_states", 1)]):
         for sgn in (1, -1):
-            errs, denergy = [], []
+            errs, denergy, denergy_own = [], [], []
             ok = True
             for eps in LADDER:
                 acc.count("evaluations")
@@ -173,6 +173,12 @@ def check_order(cfg, acc):
                 de = abs(case.h_ref(np.array(new.pos), np.array(new.mom)) - case.h_ref(q, p))
                 errs.append(float(e))
                 denergy.append(float(de))
+                # the same energy error measured with the system's OWN Hamiltonian
+                try:
+                    denergy_own.append(abs(float(case.system.h(new))
+                                           - float(case.system.h(zoo.mk_state(q, p, sgn)))))
+                except Exception:  # noqa: BLE001
+                    denergy_own.append(float("nan"))
             if not ok:
                 continue
             acc.count("ladders")
@@ -198,6 +204,13 @@ def check_order(cfg, acc):
             if max(denergy) > 1e-11 and ratios[-1] > 2.0 * max(ratios[:-1]) + 1e-9:
                 viol("order", "energy_error_order", {"dH_over_eps2": ratios, "errors": denergy},
                      "|dH|/eps^2 bounded as eps -> 0", state=si, dir=sgn)
+                continue
+            ratios = [de / e ** 2 for de, e in zip(denergy_own, LADDER)]
+            if all(np.isfinite(denergy_own)) and max(denergy_own) > 1e-11 and \
+                    ratios[-1] > 2.0 * max(ratios[:-1]) + 1e-9:
+                viol("order", "energy_error_order_wrt_system_h",
+                     {"dH_over_eps2": ratios, "errors": denergy_own},
+                     "|d system.h|/eps^2 bounded as eps -> 0", state=si, dir=sgn)
                 continue
             acc.outcome((F["integrator"], F["class"], round(slope, 2)))
 
@@ -227,8 +240,9 @@ def configs(tier, seed):
     # (ii) numerical order
     quick = tier == "quick"
     sysc = zoo.system_configs(seed, tier, all_convs=False,
-                              dims=(2,) if quick else (1, 2, 3))
-    mets = ("identity", "dense_pd", "pos_diagonal", "low_rank_downdate") if quick else None
+                              dims=(2,) if quick else (1, 2, 3), derived_metrics=True)
+    mets = ("identity", "dense_pd", "pos_diagonal", "low_rank_downdate",
+            "derived_used_then_divided", "derived_inv_after_eig") if quick else None
     for sc in sysc:
         if quick and sc["target"] != "quartic":
             continue
@@ -236,6 +250,8 @@ def configs(tier, seed):
             continue
         fam = sc["family"]
         if fam in ("euclidean", "gaussian"):
+            if sc["metric"] == "derived_heavy_identity":
+                continue  # the ladder is far below the time scale of this system
             recs = izoo.tractable_recipes(tier) if sc["metric"] in ("identity", "dense_pd") \
                 else [["leapfrog"], ["bcss3"]]
             recs = recs + ([["implicit_midpoint", "direct", True]] if sc["metric"] == "dense_pd"
